@@ -78,3 +78,14 @@ package xstar
 //@
 //@ func (*socket).RemovePipe
 //@   may_close p.closeq caller
+// ---- generated wake-on-close contracts (from `govc sites -select`) ----
+//@ func (*pipe).receiver
+//@   before select#2 assert selwaits(p.closeq) && selwaits(p.s.closeq)
+//@
+//@ func (*pipe).sender
+//@   before select#1 assert selwaits(p.closeq)
+//@
+//@ func (*socket).RecvMsg
+//@   before select#1 assert selwaits(s.closeq)
+//@
+// ---- end generated wake-on-close contracts ----
